@@ -533,8 +533,9 @@ pub fn check_main(a: CheckArgs) -> i32 {
                 "minimiser_executions": minimise_execs,
                 "violations_before_dedup": violations_total,
                 "known_findings_hit": known_hits.len(),
+                "plugin_entry": if crate::pipeline::PLUGIN_ENTRY_COMPILED { "real code: /repo/plugin/src/lib.rs, compiled natively against a shim of swc_core::plugin (attribute macro, metadata and comments proxies are plain values filled in by the simulated host); every run whose host deserialises the configuration per file goes through it" } else { "stub: /repo/plugin/src/lib.rs did not compile against the native shim in this run; its two statements (config string -> Options -> one pass) are re-expressed natively" },
                 "real_code": ["swc-vue-jsx-visitor (whole crate, /repo working tree, feature verif-hooks)", "Options deserialisation (serde_json::from_str::<Options>)", "swc_ecma_parser", "swc_ecma_transforms_base::resolver", "swc_ecma_codegen", "swc_common::{Globals, SourceMap, SingleThreadedComments, Handler}", "std RandomState", "hstr atom store"],
-                "stubbed": ["host thread pool + scheduler (the simulator)", "shared comments store (Mutex<BTreeMap> implementation of the Comments trait)", "diagnostics Emitter", "getrandom (seed-derived)", "plugin/src/lib.rs entry (config string -> Options -> one pass), re-expressed natively: the WASM export cannot run here"],
+                "stubbed": ["host thread pool + scheduler (the simulator)", "shared comments store (Mutex<BTreeMap> implementation of the Comments trait)", "diagnostics Emitter", "getrandom (seed-derived)", "swc_core::plugin (the #[plugin_transform] macro and the host-call proxies TransformPluginProgramMetadata / PluginCommentsProxy): native stand-ins, the WASM export and its host imports cannot run here"],
             },
             "assumptions": [
                 "totality (T) is decided on the fixed workload only, not over the input space",
